@@ -58,10 +58,10 @@ def build_dataset(ck, name, seed, depth, deep):
 
 def build_repo_dataset(ck):
     """The repository's own test data (deep BAMs) with physically merged BAMs (query names prefixed per source)."""
-    S = datasets.repo_simple(env.REPO)
     root = os.path.join(ck.wd, "data", "simple")
     shutil.rmtree(root, ignore_errors=True)
     os.makedirs(root)
+    S = datasets.repo_simple(env.REPO, os.path.join(root, "repo-data"))
     bams = S["bams"]["deep"]
     man = {"name": "simple", "ref": S["ref"], "snv_vcf": S["snv_vcf"], "bed_run": S["bed"], "hap_vcf": S["hap_vcfs"]["mock"],
            "samples": [{"name": n, "bam": b} for n, b in zip(S["samples"], bams)],
@@ -102,16 +102,19 @@ def materialise(man, units, tag, rnd_dir):
     return argv, names, ploidy, os.path.join(d, "inbreeding.txt")
 
 
+# (program, extra arguments, group name, maximal number of units of the configurations run in this group)
+# G-length fields (GP / GL) only in the groups restricted to <= 2 units (a pool of three diploids with six
+# alleles has 462 genotypes per column)
 GROUPS_QUICK = [
-    ("call", ["--report", "AFP", "GP"], "call"),
-    ("call-exact", ["--report", "AFP", "GL", "--inbreeding", "@INBREEDING"], "call-exact"),
-    ("assemble", ["--report", "AFP"], "assemble"),
-    ("assemble", ["--report", "AFP", "--haplotype-posterior-threshold", "0.9", "--inbreeding", "@INBREEDING"], "assemble-t0.9"),
+    ("call", ["--report", "AFP", "GP"], "call", 2),
+    ("call-exact", ["--report", "AFP", "GL", "--inbreeding", "@INBREEDING"], "call-exact", 2),
+    ("assemble", ["--report", "AFP"], "assemble", 3),
+    ("assemble", ["--report", "AFP", "--haplotype-posterior-threshold", "0.9", "--inbreeding", "@INBREEDING"], "assemble-t0.9", 3),
 ]
 GROUPS_THOROUGH = GROUPS_QUICK + [
-    ("call", ["--report", "ACP", "GL", "--prior-frequencies", "AFP", "--inbreeding", "@INBREEDING"], "call-prior"),
-    ("call-exact", ["--report", "GP", "AOP", "--prior-frequencies", "AFP", "--filter-input-haplotypes", "AFP>=0.05"], "call-exact-filter"),
-    ("assemble", ["--report", "AFP", "ACP", "--mcmc-chains", "2", "--inbreeding", "0.1"], "assemble-2chains"),
+    ("call", ["--report", "ACP", "AFP", "--prior-frequencies", "AFP", "--inbreeding", "@INBREEDING"], "call-prior", 3),
+    ("call-exact", ["--report", "AFP", "AOP", "--prior-frequencies", "AFP", "--filter-input-haplotypes", "AFP>=0.05"], "call-exact-filter", 3),
+    ("assemble", ["--report", "AFP", "ACP", "--mcmc-chains", "2", "--inbreeding", "0.1"], "assemble-2chains", 2),
 ]
 
 
@@ -197,9 +200,13 @@ def main():
     shutil.rmtree(cfgdir, ignore_errors=True)
     runs = []
     for man in dsets:
-        for prog, extra, gname in groups:
+        for prog, extra, gname, maxlen in groups:
+            if man["name"] == "F2" and gname not in ("call-prior", "assemble"):
+                continue
             for key in sorted(configs):
                 units = configs[key]
+                if len(units) > maxlen:
+                    continue
                 argv, names, ploidy, inbfile = materialise(man, units, "%s-%s" % (man["name"], "_".join(key)), cfgdir)
                 argv += ["--reference", man["ref"]]
                 if prog != "call-exact":
@@ -212,9 +219,11 @@ def main():
                              "argv": argv + [inbfile if x == "@INBREEDING" else x for x in extra],
                              "expected": names})
     # the repository's own data (happy path): the first three groups
-    for prog, extra, gname in GROUPS_QUICK[:3]:
+    for prog, extra, gname, maxlen in GROUPS_QUICK[:3]:
         for key in sorted(configs):
             units = configs[key]
+            if len(units) > 2:
+                continue
             if tier == "quick" and len(units) > 1 and not any(len(u["m"]) > 1 for u in units):
                 continue    # quick: singles, and every configuration with a pool / merged sample
             argv, names, ploidy, inbfile = materialise(repo_man, units, "simple-%s" % "_".join(key), cfgdir)
@@ -294,8 +303,7 @@ def main():
         ck.traces += len(logged)
         keys = [x["_key"] for x in logged]
         kset = set(keys)
-        if not gname.startswith("simple/") or tier == "thorough":
-            covered_pairs |= {(a, b) for (a, b) in model_pairs if a in kset and b in kset}
+        covered_pairs |= {(a, b) for (a, b) in model_pairs if a in kset and b in kset}
         grouped = {}
         for p in t.printed:
             if "reject" in p:
